@@ -7,6 +7,7 @@ import (
 	"io/fs"
 	"sort"
 	"strings"
+	"time"
 )
 
 // Rec is what a snapshot records about one path.
@@ -52,12 +53,33 @@ type SnapOpts struct {
 	Full     bool     // also record mtimes (emulated file systems only)
 	MaxNodes int
 	NoOwner  bool // do not record owners (file systems without identity manager)
+	NoGuard  bool // walk on the calling goroutine, unbounded
 }
 
 // Snapshot walks the tree with ReadDir + Lstat (+ ReadFile, Readlink) through
 // the API only. A walk that exceeds the node bound is reported in the last
 // record's Err (C05: the walk must terminate).
-func Snapshot(fsys FS, o SnapOpts) (snap Snap) {
+//
+// On an emulated file system the walk is bounded like a call (DefaultGuard): a lock
+// left held by a call that never returned would otherwise block the walk, and the
+// check, for ever. The walk that does not come back is the one record {"/", HANG}.
+func Snapshot(fsys FS, o SnapOpts) Snap {
+	if _, kernel := fsys.(OSFS); kernel || o.NoGuard || DefaultGuard <= 0 {
+		return snapshot(fsys, o)
+	}
+	ch := make(chan Snap, 1)
+	go func() { ch <- snapshot(fsys, o) }()
+	tm := time.NewTimer(DefaultGuard)
+	defer tm.Stop()
+	select {
+	case s := <-ch:
+		return s
+	case <-tm.C:
+		return Snap{{Path: "/", Err: "HANG"}}
+	}
+}
+
+func snapshot(fsys FS, o SnapOpts) (snap Snap) {
 	if len(o.Roots) == 0 {
 		o.Roots = []string{"/"}
 	}
